@@ -55,5 +55,7 @@ SEEDED = [
     ("C14-11", "C14-TYPE"),
     ("C14-12", "C14-REF"),
     ("C14-13", "C14-REF"),
+    ("C14-14", "C14-REF"),
+    ("C14-15", "C14-REF"),
 ]
 MUTANTS = list(MUTANTS) + [_P("seed-" + sid, _os.path.join(_SEEDS, sid, "patch.diff"), rule) for sid, rule in SEEDED if _os.path.exists(_os.path.join(_SEEDS, sid, "patch.diff"))]
